@@ -349,7 +349,15 @@ fn sim_result(d: &mut Dump, r: &SimulationResult) {
 fn h_dst(p: usize, seed: u64, n: u64) -> Dump {
     let mut d = Dump::default();
     let nodes = 3 + (mix(seed, 0xd57) % 4) as usize;
-    let cfg = match p { 0 => DSTConfig::new(seed), 1 => DSTConfig::calm(seed), _ => DSTConfig::chaos(seed) }.with_nodes(nodes);
+    let cfg = match p { 0 => DSTConfig::new(seed), 1 => DSTConfig::calm(seed), 2 => DSTConfig::chaos(seed),
+        _ => {
+            // crash storm: a node crashes in one step out of five and is back within 10-60 ms, so that a run of a thousand
+            // steps sees many hundreds of injected crash faults (whatever is counted or capped per fault gets exercised)
+            let mut fc = FaultConfig::new();
+            fc.set(redis_sim::buggify::faults::process::CRASH, 0.20);
+            DSTConfig { seed, fault_config: fc, crash_config: redis_sim::simulator::CrashConfig { min_recovery_time_ms: 10, max_recovery_time_ms: 60, enable_buggify_crashes: true, ..Default::default() }, max_time_ms: u64::MAX / 4, ..Default::default() }
+        }
+    }.with_nodes(nodes);
     let max_time = cfg.max_time_ms;
     let mut sim = DSTSimulation::with_config(cfg);
     // run_operations(n), one step at a time so that node liveness after every step is on record
@@ -559,7 +567,7 @@ pub const HARNESSES: &[HarnessDef] = &[
     HarnessDef { name: "crdt-vectorclock", probe: "harness/crdt-vectorclock", ambient_probe: "ambient_buggify_dependent/crdt-vectorclock", presets: &["calm", "moderate", "chaos", "new"], sizes: [20, 100, 500], key_by_preset: false, run: h_vclock },
     HarnessDef { name: "multi-node", probe: "harness/multi-node", ambient_probe: "ambient_buggify_dependent/multi-node", presets: &["broadcast", "no-anti-entropy", "partitioned-rf2", "lossy", "no-anti-entropy-write-bursts"], sizes: [20, 80, 300], key_by_preset: true, run: h_multi },
     HarnessDef { name: "partition", probe: "harness/partition", ambient_probe: "ambient_buggify_dependent/partition", presets: &["asymmetric", "isolate-node", "split-brain", "ring", "batch"], sizes: [4, 12, 40], key_by_preset: true, run: h_partition },
-    HarnessDef { name: "dst", probe: "harness/dst", ambient_probe: "ambient_buggify_dependent/dst", presets: &["new", "calm", "chaos"], sizes: [50, 300, 1500], key_by_preset: false, run: h_dst },
+    HarnessDef { name: "dst", probe: "harness/dst", ambient_probe: "ambient_buggify_dependent/dst", presets: &["new", "calm", "chaos", "crash-storm"], sizes: [50, 300, 1500], key_by_preset: false, run: h_dst },
     HarnessDef { name: "redis-dst", probe: "harness/redis-dst", ambient_probe: "ambient_buggify_dependent/redis-dst", presets: &["zipfian", "uniform", "faults-calm", "faults-chaos", "zipfian-skew-1.5"], sizes: [20, 100, 500], key_by_preset: false, run: h_redis_dst },
     HarnessDef { name: "streaming", probe: "harness/streaming", ambient_probe: "ambient_buggify_dependent/streaming", presets: &["new", "calm", "moderate", "chaos"], sizes: [30, 150, 600], key_by_preset: false, run: h_streaming },
     HarnessDef { name: "compaction", probe: "harness/compaction", ambient_probe: "ambient_buggify_dependent/compaction", presets: &["new", "calm", "aggressive", "chaos"], sizes: [30, 150, 600], key_by_preset: false, run: h_compaction },
@@ -732,6 +740,7 @@ impl Property for C20 {
         let skew = [0u64, 1, 1000, 86_400_000][src.idx(4)];
         let fresh = src.chance(1, 3);
         let ambient = src.chance(1, 8);
+        let series = src.chance(1, 3);
         let case = Case { h, preset, seed, size };
         let spec = case.spec();
         let who = if def.key_by_preset { format!("{}:{}", def.name, def.presets[preset]) } else { def.name.to_string() };
@@ -795,6 +804,31 @@ impl Property for C20 {
             rep.evals += 1;
             if let Some((s, i, x, y)) = a.first_diff(&b, limit) {
                 let msg = format!("{} executed on a thread on which harness '{}' had just run (and been dropped) differs from its execution on a fresh thread: section '{}' line {}: fresh «{}» vs after «{}» ({}) - something the earlier harness left behind on the thread (BUGGIFY configuration or statistics, a thread-local) decides the outcome", spec, HARNESSES[h2].name, SECTIONS[s], i, cut(&x, 300), cut(&y, 300), around(&x, &y));
+                rep.log(ctx.trace, || msg.clone());
+                if found_any.is_none() { found_any = Some(()); rep.violate(format!("C20/{}/depends-on-predecessor-on-thread", who), msg); }
+            }
+        }
+
+        // ---- the same case several times in a row on this thread with nothing in between but reset_stats() (what the
+        // repository's own batch runners and seed loops do): whatever one execution leaves behind on the thread - counters,
+        // budgets, memo tables - accumulates, and execution n must still be execution 1
+        if series {
+            buggify::set_config(FaultConfig::default());
+            let k = 3 + (seed % 6) as usize;
+            let mut first_bad: Option<String> = None;
+            for j in 0..k {
+                let b = execute_with(&case, Some(T0_MS), false, false);
+                rep.evals += 1;
+                rep.probe("same_case_repeated_back_to_back_on_one_thread");
+                if first_bad.is_none() {
+                    if let Some((s, i, x, y)) = a.first_diff(&b, limit) {
+                        first_bad = Some(format!("{} executed {} times in a row on one thread (only reset_stats() in between): execution {} differs from the first in section '{}' line {}: first «{}» vs «{}» ({}) - something accumulates on the thread from one execution to the next", spec, k, j + 1, SECTIONS[s], i, cut(&x, 300), cut(&y, 300), around(&x, &y)));
+                    }
+                }
+            }
+            buggify::set_config(FaultConfig::default());
+            rep.fault("same_case_repeated_back_to_back");
+            if let Some(msg) = first_bad {
                 rep.log(ctx.trace, || msg.clone());
                 if found_any.is_none() { found_any = Some(()); rep.violate(format!("C20/{}/depends-on-predecessor-on-thread", who), msg); }
             }
